@@ -468,7 +468,7 @@ def class_methods(path, cls):
     raise Untranslatable(f"class {cls} not found in {path}")
 
 
-def gen_wrap_fns():
+def gen_wrap_fns_ctx():
     seq = class_methods(os.path.join(REPO, "scoda/sequences/sequence.py"), "Sequence")
     views = {"abs": class_methods(os.path.join(REPO, "scoda/sequences/absolute_sequence.py"), "AbsoluteSequence"),
              "rel": class_methods(os.path.join(REPO, "scoda/sequences/relative_sequence.py"), "RelativeSequence")}
@@ -504,7 +504,11 @@ def gen_wrap_fns():
         "",
     ]
     names = "def translated : List String := [" + ", ".join(f'"{p}"' for p, _ in METHODS) + "]\n"
-    return "\n".join(head) + "\n" + "\n".join(out) + "\n" + names + "\nend SCoda.Gen.Wrap\n"
+    return "\n".join(head) + "\n" + "\n".join(out) + "\n" + names + "\nend SCoda.Gen.Wrap\n", ctx, ret_types
+
+
+def gen_wrap_fns():
+    return gen_wrap_fns_ctx()[0]
 
 
 if __name__ == "__main__":
